@@ -15,6 +15,13 @@ CLASS_RE = re.compile(r"^(Servo|LiquidCrystal_I2C|LiquidCrystal)\s+\w+", re.M)
 INC_RE = re.compile(r"^\s*#\s*include\s*<([^>]+)>", re.M)
 
 
+def tail_comment(rng):
+    """Trailing comments are free text: unbalanced brackets and quotes in them mean nothing."""
+    if rng.random() < 0.75:
+        return ""
+    return "  " + rng.choice(["# backpack (PCF8574", "# pan [left", "# {todo", "# it's the \"big\" one", "# )", "# servo = Servo(", "# \\"])
+
+
 def make_script(cfg, rng):
     n_servo_pre, n_servo_loop, n_par, n_i2c, noise, actions, main_loop = cfg
     L = [HDR]
@@ -30,10 +37,11 @@ def make_script(cfg, rng):
         names.append(("lcd", f"lcdp{i}"))
     for i in range(n_i2c):
         addr = rng.choice([str(0x20 + i), "0", "0x00", "0x27 - 39", hex(0x3F - i)])
-        L.append(f"lcdi{i} = LCD(i2c_addr={addr}, cols={rng.choice([16, 20])}, rows={rng.choice([2, 4])})")
+        bl = f", backlight_pin={nxt()}" if rng.random() < 0.3 else ""   # a backlight pin does not make it a parallel display
+        L.append(f"lcdi{i} = LCD(i2c_addr={addr}, cols={rng.choice([16, 20])}, rows={rng.choice([2, 4])}{bl})" + tail_comment(rng))
         names.append(("lcd", f"lcdi{i}"))
     for i in range(n_servo_pre):
-        L.append(f"sv{i} = Servo({nxt()})")
+        L.append(f"sv{i} = Servo({nxt()})" + tail_comment(rng))
         names.append(("servo", f"sv{i}"))
     if noise:
         L += [f"led = Led({nxt()})", f"rgb = RGBLed({nxt()}, {nxt()}, {nxt()})", f"mot = DCMotor({nxt()}, {nxt()}, {nxt()})",
